@@ -12,7 +12,7 @@ package patch
 //@   at call engine.Compile assert [C12] compiled-into-the-same-file-set: arg0 == ret("go/token.NewFileSet", 0) && arg1 == ret("parse.Parse", 0, 0)
 //@   ensures [C19] a-patch-that-does-not-parse-or-compile-is-rejected: ret("parse.Parse", 0, 1) != nil ==> err != nil && f == nil
 //@   ensures [C12,C19] a-patch-that-does-not-compile-is-rejected: ret("engine.Compile", 0, 1) != nil ==> err != nil && f == nil
-//@   ensures [C12] the-file-keeps-the-file-set-and-the-program: err == nil ==> f != nil && f.fset == ret("go/token.NewFileSet", 0) && wfProg(f.prog)
+//@   ensures [C12,C14] the-file-keeps-the-file-set-and-the-program: err == nil ==> f != nil && f.fset == ret("go/token.NewFileSet", 0) && wfProg(f.prog)
 
 //@ func (f *File) Apply(filename, src) (out, err)
 //@   requires typing: snapEnvOK()
@@ -28,7 +28,7 @@ package patch
 //@   at call (*astdiff.Snapshot).Diff assert [C17] the-snapshot-is-advanced-with-the-regions-of-this-change: unbox(arg2, "S_engine_Changelog") == lastChangelog
 //@   at call patch.cleanupFilePos assert [C17] only-the-regions-of-this-change-are-cleaned-up: arg1 == lastChangelog
 //@   assigns group(ast), matchCount, replFail, sitesReplaced, restructured, inspections, importFailures, importsDeleted, deleteCalls, cleanups, commentsLeft, lastChangelog, changelogsMade, changelogsUsed, snapCurrent, allof("F.S_astdiff_value.Comments")
-//@   at call go/parser.ParseFile assert [C12,C14] the-file-is-parsed-into-the-file-set-the-patch-was-compiled-with: arg0 == f.fset
+//@   at call go/parser.ParseFile assert [C08,C12,C14] the-file-is-parsed-into-the-file-set-the-patch-was-compiled-with: arg0 == f.fset
 //@   at call go/parser.ParseFile assert [C11,C17] targets-are-parsed-with-comments-and-resolved-identifiers: arg3 == const("go/parser.AllErrors") + const("go/parser.ParseComments")
 //@   at call go/format.Node assert [C12,C14] printed-with-the-same-file-set: arg1 == f.fset
 //@   ensures [C06] no-match-returns-input: matchCount == old(matchCount) && replFail == old(replFail) ==> (err == nil ==> out == src)
